@@ -227,6 +227,7 @@ type c17Step struct {
 	MemoOK       bool
 	Amount       string // send
 	SigOK        bool   // send: signed by the declared sender
+	Again        bool   // olvm: the same signed Ethereum transaction was executed earlier in this history
 	// environment
 	BlockGas   string
 	SenderCode bool
@@ -275,6 +276,7 @@ type c17Run struct {
 	executed    []c17Tx // executed OLVM transactions (for re-encoded replays)
 	minFee      *big.Int
 	lastSendGas int64
+	execKeys    map[string]bool
 	steps       []c17Step
 	hist        map[string]int
 	outcomes    map[string]int
@@ -320,8 +322,8 @@ func (c *c17Run) toIdx(l c17Ledger, only map[string]bool) c17LedgerIdx {
 func c17NewRun(seed int64) *c17Run {
 	w := NewWorld(3, 3, 0)
 	g := w.Genesis()
-	c := &c17Run{w: w, r: rand.New(rand.NewSource(seed)), idx: map[string]int{}, seen: map[string]bool{}, hist: map[string]int{}, outcomes: map[string]int{}}
-	for i := 0; i < 6; i++ {
+	c := &c17Run{w: w, r: rand.New(rand.NewSource(seed)), idx: map[string]int{}, seen: map[string]bool{}, hist: map[string]int{}, outcomes: map[string]int{}, execKeys: map[string]bool{}}
+	for i := 0; i < 8; i++ { // 0-3 funded, 4 poor, 5-7 hold nothing (funded natively during the run, drained by send-max)
 		c.ek = append(c.ek, c17Key(byte(1+i)))
 	}
 	for _, k := range c.ek[:4] {
@@ -392,6 +394,8 @@ func (c *c17Run) deliverOLVM(class, descr string, k c17EthKey, fromAddr keys.Add
 	st.ChainOK = signChain.Cmp(c.chain) == 0 && fieldChain.Cmp(c.chain) == 0 && sameKey
 	st.MemoOK = memo == strconv.FormatUint(nonce, 10)
 	st.Dup = c.seen[hexTx]
+	signedKey := fmt.Sprintf("%s|%d|%s|%s|%d|%s|%x", c17AddrKey(fromAddr), nonce, c17ToHex(to), value, gas, price, data)
+	st.Again = c.execKeys[signedKey] && sameKey
 	// environment
 	st.BlockGas = strconv.FormatUint(c.rep.A.VerifDeliver().GetCalculator().GetLeft(), 10)
 	st.SenderCode = c.senderHasCode(fromAddr)
@@ -457,6 +461,7 @@ func (c *c17Run) deliverOLVM(class, descr string, k c17EthKey, fromAddr keys.Add
 	}
 	c.finish(&st, pre, post, touched)
 	if res.Code == 0 && !st.Dup {
+		c.execKeys[signedKey] = true
 		c.executed = append(c.executed, c17Tx{From: c.ekIndex(fromAddr), Value: value.String(), Gas: gas, Price: price.String(), Nonce: nonce, Data: hex.EncodeToString(data), TxType: txType,
 			Descr: c17ToHex(to)})
 	}
@@ -950,6 +955,28 @@ func (c *c17Run) directed() {
 	dl("directed-seq-olvm-to", e0, &a3, c.stNonce(e0.Addr), big.NewInt(31), 21000, nil, 0)
 	dl("directed-seq-olvm-from", e3, nil, c.stNonce(a3), big.NewInt(3), 200000, c17Deployer(c17RtStop), 0)
 	c.endBlock()
+	// send max: an account funded natively spends its whole balance (exactly 0 left, nonce 1), is
+	// touched by zero-value transfers, re-funded natively; its old transactions must be refused
+	d := c.ek[6]
+	c.beginBlock()
+	c.deliverSend("directed-drain-fund", "native funding of an empty eth account", u0, d.Addr, "30000000000005", 1000000)
+	c.sendMax("directed-send-max", d, f0)
+	dl("directed-zero-value-to-drained", e0, &d.Addr, c.stNonce(e0.Addr), zero, 21000, nil, 0)
+	dl("directed-zero-value-to-drained", e0, &d.Addr, c.stNonce(e0.Addr), zero, 30000, nil, 0)
+	c.replayOld("directed-drain-replay-unfunded", d)
+	c.endBlock()
+	c.beginBlock()
+	c.deliverSend("directed-drain-refund", "native re-funding of a drained account", u1, d.Addr, "90000000000000", 1000000)
+	c.replayOld("directed-drain-replay", d)
+	dl("directed-drain-continues", d, &f0, c.stNonce(d.Addr), big.NewInt(1), 21000, nil, 0)
+	if a := byKind("stop"); a != nil { // send max through a call to a contract whose code is STOP (uses 21000)
+		c.sendMax("directed-send-max-call", d, *a)
+	}
+	dl("directed-zero-value-to-drained", e0, &d.Addr, c.stNonce(e0.Addr), zero, 21000, nil, 0)
+	c.deliverSend("directed-drain-refund", "native re-funding of a drained account", u0, d.Addr, "90000000000000", 1000000)
+	c.replayOld("directed-drain-replay", d)
+	c.replayOld("directed-drain-replay", d)
+	c.endBlock()
 	// the same three steps split over blocks (control)
 	c.beginBlock()
 	dl("directed-seq-precheck-fail", e3, &f0, c.stNonce(a3)+1, big.NewInt(9), 21000, nil, 0)
@@ -960,6 +987,119 @@ func (c *c17Run) directed() {
 	c.beginBlock()
 	dl("directed-seq-olvm-from", e3, &f0, c.stNonce(a3), big.NewInt(7), 21000, nil, 0)
 	c.endBlock()
+}
+
+func c17Lookup(l [][2]string, idx int) string {
+	k := strconv.Itoa(idx)
+	for _, e := range l {
+		if e[0] == k {
+			return e[1]
+		}
+	}
+	return "0"
+}
+
+func (c *c17Run) balanceOf(a keys.Address) *big.Int {
+	b, _ := new(big.Int).SetString(c17Or0(c17Project(c.rep.View()).Bal[c17AddrKey(a)]), 10)
+	return b
+}
+
+// sendMax: a plain transfer of the sender's WHOLE balance (value = balance - 21000*price, gas limit
+// = the 21000 it uses): the sender ends at exactly 0 with its nonce raised
+func (c *c17Run) sendMax(class string, A c17EthKey, to keys.Address) bool {
+	bal := c.balanceOf(A.Addr)
+	cost := new(big.Int).Mul(big.NewInt(21000), c17Gwei)
+	if bal.Cmp(cost) < 0 {
+		return false
+	}
+	n := c.stNonce(A.Addr)
+	c.deliverOLVM(class, "send max", A, A.Addr, &to, n, new(big.Int).Sub(bal, cost), c17Gwei, 21000, nil, c.chain, c.chain, strconv.FormatUint(n, 10), 0, c.contractAt(to), nil)
+	return true
+}
+
+// replayOld: an executed transaction of A again, re-encoded (must be refused: nonce too low)
+func (c *c17Run) replayOld(class string, A c17EthKey) {
+	ai := c.ekIndex(A.Addr)
+	var mine []c17Tx
+	for _, e := range c.executed {
+		if e.From == ai {
+			mine = append(mine, e)
+		}
+	}
+	if len(mine) == 0 {
+		return
+	}
+	e := mine[c.r.Intn(len(mine))]
+	var to *keys.Address
+	if e.Descr != "" {
+		b, _ := hex.DecodeString(e.Descr)
+		a := keys.Address(b)
+		to = &a
+	}
+	value, _ := new(big.Int).SetString(e.Value, 10)
+	price, _ := new(big.Int).SetString(e.Price, 10)
+	data, _ := hex.DecodeString(e.Data)
+	var callee *c17Contract
+	if to != nil {
+		callee = c.contractAt(*to)
+	}
+	c.deliverOLVM(class, "old transaction of a drained and re-funded account", A, A.Addr, to, e.Nonce, value, price, e.Gas, data, c.chain, c.chain, strconv.FormatUint(e.Nonce, 10), e.TxType+1+int64(c.r.Intn(100000)), callee, nil)
+}
+
+// genDrainSeq: fund an empty eth account natively, let it spend its whole balance (exactly 0 left,
+// nonce > 0), touch it with zero-value transfers, re-fund it natively and replay its old transactions
+func (c *c17Run) genDrainSeq() {
+	r := c.r
+	A := c.ek[4+r.Intn(4)]
+	a := A.Addr
+	u := c.w.Users[r.Intn(len(c.w.Users))]
+	maybeNewBlock := func() {
+		if r.Intn(3) == 0 {
+			c.endBlock()
+			c.beginBlock()
+		}
+	}
+	if c.balanceOf(a).Cmp(new(big.Int).Mul(big.NewInt(21000), c17Gwei)) < 0 {
+		c.deliverSend("drain-fund", "native funding of an empty eth account", u, a, strconv.FormatInt(21000000000000+int64(r.Intn(1000000000)), 10), 1000000)
+		maybeNewBlock()
+	}
+	if r.Intn(4) == 0 { // an ordinary transaction first, so that the nonce is higher
+		n := c.stNonce(a)
+		f := c.fresh[r.Intn(len(c.fresh))]
+		c.deliverOLVM("drain-ordinary", "ordinary transfer before the drain", A, a, &f, n, big.NewInt(int64(r.Intn(50))), c17Gwei, 21000, nil, c.chain, c.chain, strconv.FormatUint(n, 10), 0, nil, nil)
+		if c.balanceOf(a).Cmp(new(big.Int).Mul(big.NewInt(21000), c17Gwei)) < 0 {
+			c.deliverSend("drain-fund", "native funding of an empty eth account", u, a, strconv.FormatInt(21000000000000+int64(r.Intn(1000000000)), 10), 1000000)
+		}
+	}
+	to := c.fresh[r.Intn(len(c.fresh))]
+	if r.Intn(3) == 0 {
+		to = c.ek[r.Intn(4)].Addr
+	}
+	if !c.sendMax("drain-send-max", A, to) {
+		return
+	}
+	maybeNewBlock()
+	for i, k := 0, r.Intn(3); i < k; i++ { // zero-value transfers to the drained account
+		B := c.ek[r.Intn(4)]
+		bn := c.stNonce(B.Addr)
+		c.deliverOLVM("drain-zero-value-to", "zero-value transfer to a drained account", B, B.Addr, &a, bn, big.NewInt(0), c17Gwei, int64(21000+r.Intn(2)*9000), nil, c.chain, c.chain, strconv.FormatUint(bn, 10), 0, nil, nil)
+	}
+	if r.Intn(4) == 0 {
+		c.replayOld("drain-replay-unfunded", A)
+	}
+	maybeNewBlock()
+	c.deliverSend("drain-refund", "native re-funding of a drained account", u, a, strconv.FormatInt(50000000000000+int64(r.Intn(1000000000)), 10), 1000000)
+	if r.Intn(2) == 0 {
+		maybeNewBlock()
+	}
+	for i, k := 0, 1+r.Intn(2); i < k; i++ {
+		c.replayOld("drain-replay", A)
+	}
+	if r.Intn(2) == 0 { // and the account goes on with its real nonce
+		n := c.stNonce(a)
+		f := c.fresh[r.Intn(len(c.fresh))]
+		c.deliverOLVM("drain-continues", "next transaction of the re-funded account", A, a, &f, n, big.NewInt(int64(r.Intn(50))), c17Gwei, 21000, nil, c.chain, c.chain, strconv.FormatUint(n, 10), 0, nil, nil)
+	}
 }
 
 // genStaleSeq: inside the current block — OLVM of A that passes Validate but fails its pre-check,
@@ -1079,9 +1219,9 @@ func c17StepCoq(s *c17Step) string {
 	for _, v := range s.Views {
 		views = append(views, strconv.Itoa(v.Addr), c17Z(v.Keeper), c17Z(v.SDB))
 	}
-	return fmt.Sprintf("mkC %s\n %s\n %s %s\n %s\n [%s] %s %s %s [%s]",
+	return fmt.Sprintf("mkC %s\n %s\n %s %s\n %s\n [%s] %s %s %s [%s] %s",
 		c17LedgerCoq(s.Pre), in, c17Bool(s.Code == 0), c17Z(strconv.FormatInt(s.GasUsed, 10)), c17LedgerCoq(s.Post), strings.Join(addrs, ";"),
-		c17Z(strconv.Itoa(s.Check)), c17LedgerCoq(s.CheckPre), c17Z(s.MinFee), strings.Join(views, ";"))
+		c17Z(strconv.Itoa(s.Check)), c17LedgerCoq(s.CheckPre), c17Z(s.MinFee), strings.Join(views, ";"), c17Bool(s.Again))
 }
 
 func c17WriteCases(path string, steps []c17Step) {
@@ -1104,15 +1244,17 @@ func c17WriteCases(path string, steps []c17Step) {
 }
 
 type c17Report struct {
-	Files     []string
-	Steps     int
-	Distinct  int
-	Classes   map[string]int
-	Outcomes  map[string]int
-	Checks    map[string]int
-	ViewsRead int
-	Contracts int
-	Samples   []c17Step
+	Files         []string
+	Steps         int
+	Distinct      int
+	Classes       map[string]int
+	Outcomes      map[string]int
+	Checks        map[string]int
+	ViewsRead     int
+	SenderZero    int // executed OLVM transactions that left the sender's balance at exactly 0
+	ZeroToDrained int // executed zero-value transfers to an account with balance 0 and nonce > 0
+	Contracts     int
+	Samples       []c17Step
 }
 
 func c17Main(args []string) int {
@@ -1148,6 +1290,12 @@ func c17Main(args []string) int {
 				c.genIdentical()
 			case 2:
 				c.genStaleSeq()
+			case 3:
+				if c.r.Intn(2) == 0 {
+					c.genDrainSeq()
+				} else {
+					c.genStep()
+				}
 			default:
 				c.genStep()
 			}
@@ -1158,6 +1306,14 @@ func c17Main(args []string) int {
 	distinct := map[string]bool{}
 	for i := range c.steps {
 		s := &c.steps[i]
+		if s.Kind == "olvm" && s.Code == 0 && !s.Dup {
+			if c17Lookup(s.Post.Bal, s.From) == "0" {
+				rep.SenderZero++
+			}
+			if s.To >= 0 && s.To != s.From && s.Value == "0" && c17Lookup(s.Pre.Bal, s.To) == "0" && c17Lookup(s.Pre.Non, s.To) != "0" {
+				rep.ZeroToDrained++
+			}
+		}
 		distinct[fmt.Sprintf("%s|%d|%d|%s|%d|%s|%d|%d|%v|%d|%v", s.Class, s.From, s.To, s.Value, s.Gas, s.Price, s.Nonce, s.NZ+s.Z, s.Failed, s.Code, s.Dup)] = true
 		rep.ViewsRead += len(s.Views)
 		if s.Kind == "olvm" {
